@@ -2,9 +2,7 @@ package props
 
 import (
 	"fmt"
-	"github.com/robfig/soy/ast"
 	"github.com/robfig/soy/soyhtml"
-	"github.com/robfig/soy/soymsg"
 	"reflect"
 	"strings"
 
@@ -211,19 +209,7 @@ func init() {
 				// catalogue built from the compiled messages themselves (plural messages are left to the source) changes nothing
 				if k == 0 && kinds["Msg"] && rerr == nil && i%3 == 0 {
 					if reg, cerr := compileRegistry(files, prog.B.Globals); cerr == nil {
-						idb := &fakeBundle{msgs: map[uint64]*soymsg.Message{}, locale: "xx"}
-						for _, t := range reg.Templates {
-							walkAst(t.Node, func(n ast.Node) {
-								if m, ok := n.(*ast.MsgNode); ok {
-									for _, c := range m.Body.Children() {
-										if _, isPl := c.(*ast.MsgPluralNode); isPl {
-											return
-										}
-									}
-									idb.msgs[m.ID] = soymsg.NewMessage(m.ID, soymsg.PlaceholderString(m))
-								}
-							})
-						}
+						idb := identityCatalogue(reg)
 						got2, rerr2 := render(soyhtml.NewTofu(reg), prog.Entry, d, prog.IJ, idb)
 						ctx.Obs("identity_catalogue_renders", 1)
 						if rerr2 != nil || got2 != got {
